@@ -233,6 +233,85 @@ func (fc *FnCtx) obligeAt(reach, kind, detail, goal string, props []string, text
 	return o
 }
 
+// splitGoal splits a formula into conjuncts: (and a b) -> a, b ; (=> h (and a b)) -> (=> h a), (=> h b).
+func splitGoal(t string) []string {
+	t = strings.TrimSpace(t)
+	if strings.HasPrefix(t, "(and ") {
+		var out []string
+		for _, a := range sexprArgs(t) {
+			out = append(out, splitGoal(a)...)
+		}
+		return out
+	}
+	if strings.HasPrefix(t, "(=> ") {
+		args := sexprArgs(t)
+		if len(args) == 2 {
+			var out []string
+			for _, c := range splitGoal(args[1]) {
+				out = append(out, implies(args[0], c))
+			}
+			return out
+		}
+	}
+	return []string{t}
+}
+
+// sexprArgs returns the top-level arguments of (op a b c).
+func sexprArgs(t string) []string {
+	var out []string
+	i := strings.IndexByte(t, ' ')
+	if i < 0 {
+		return nil
+	}
+	d := 0
+	start := -1
+	inq := false
+	for k := i; k < len(t)-1; k++ {
+		c := t[k]
+		if inq {
+			if c == '|' {
+				inq = false
+				if d == 0 {
+					out = append(out, t[start:k+1])
+					start = -1
+				}
+			}
+			continue
+		}
+		switch c {
+		case '|':
+			inq = true
+			if d == 0 && start < 0 {
+				start = k
+			}
+		case '(':
+			if d == 0 && start < 0 {
+				start = k
+			}
+			d++
+		case ')':
+			d--
+			if d == 0 {
+				out = append(out, t[start:k+1])
+				start = -1
+			}
+		case ' ', '\n', '\t':
+			if d == 0 && start >= 0 {
+				out = append(out, t[start:k])
+				start = -1
+			}
+		default:
+			if d == 0 && start < 0 {
+				start = k
+			}
+		}
+	}
+	if start >= 0 {
+		out = append(out, t[start:len(t)-1])
+	}
+	return out
+}
+
 func shortFile(s string) string {
 	if i := strings.LastIndex(s, "/"); i >= 0 {
 		return s[i+1:]
